@@ -731,6 +731,7 @@ bk_kruskal = Unit(
         V(r"size_type\s*\*\s*link = ", "const bk_word_t *link = "),
         V(r"basins_count\(\)", "nbasins_"),
         V(r"m_edges\.size\(\)", "m_edges_n"),
+        V(r"m_edges_indices\.size\(\)", "m_edges_indices_n"),
         V(r"m_edges_indices\.resize\(([^()]+)\)", r"fsl_bv_sz_resize(m_edges_indices, &m_edges_indices_n, m_edges_indices_cap, \1, 0)"),
         V(r"std::iota\(m_edges_indices\.begin\(\),\s*m_edges_indices\.end\(\),\s*([^,()]+)\)", r"bk_iota(m_edges_indices, m_edges_indices_n, \1)"),
         V(r"m_basins_uf\.find\(([^()]+)\)", r"bk_uf_find(%s, \1)" % UFA),
@@ -1106,6 +1107,53 @@ G_REQUEUE = Group(
            "exceeds m_max_low_degree, re-queued in m_low_degrees iff 0 < size <= m_max_low_degree, dropped otherwise; hence m_large_degrees is empty at exit "
            "exactly when no cleaned node keeps a size above the threshold")
 MAIN_GROUPS += [G_COLLAPSE, G_REQUEUE]
+
+# ---- clean-up of a large-degree node: one step of the scan that keeps, per neighbour B, ONE edge A-B in m_edge_bucket[B]
+# The path needs a node with > m_max_low_degree incident end points and is dead code in every bounded group under the real threshold; this
+# unbounded step lemma states what the minimum-spanning-tree property needs of it: of the parallel edges between two super-nodes only a
+# LIGHTEST one may survive (a heavier survivor can enter the tree in place of the lightest: the tree is then not of minimum weight).
+BUCKET_INNER = r"for \(size_t step = 0; step < m_adjacency\[node_A_id\]\.size; \+\+step\)\s*\{(?=\s*increase_perf_boruvka\(\);\s*size_type edge_AB_id)"
+BK_PTRS = ["m_edges", "m_adjacency", "m_adjacency_list", "m_link_basins", "m_edge_bucket", "m_edge_in_bucket"]
+BK_CONST = ["m_edges", "m_adjacency", "m_adjacency_list", "m_link_basins"]
+bv_bucket_step = Unit(
+    name="bv_bucket_step", file=BG_H, anchor=ANCHOR, inner=BUCKET_INNER,
+    sig="void bv_bucket_step(size_t nbasins_, %s, size_t node_A_id)" % params(BK_PTRS, const=BK_CONST),
+    pre=ML_PRE + r"""
+#ifndef BV_BK_DEFS
+#define BV_BK_DEFS
+#define BK_E (__CPROVER_old(LST(adjacency_data_ptr).link_id))          /* the edge parsed in this step */
+#define BK_B (OPP(BK_E, node_A_id))                                     /* its other end point */
+#define BK_VALID (BK_B != node_A_id && __CPROVER_old(ADJ(OPP(LST(adjacency_data_ptr).link_id, node_A_id)).size) > 0)
+#define BK_OLD (__CPROVER_old(m_edge_bucket[OPP(LST(adjacency_data_ptr).link_id, node_A_id)]))
+#endif
+""", rules=BV_VOCAB, body_prefix=_init_idx_check(),
+    contract=SH_ML.replace("&& nid < nbasins_", "&& node_A_id < nbasins_") + SH_BUCKET + fresh("m_edge_in_bucket", "m_edge_in_bucket_cap", "size_t") + r"""
+__CPROVER_requires(ROW_SLOT_OK(node_A_id) && m_edge_bucket_n == nbasins_ && nbasins_ <= m_edge_bucket_cap && m_edge_in_bucket_n < m_edge_in_bucket_cap && GBV < nbasins_)
+/* IH instance (DESIGN 3.9) of `a bucket entry is the sentinel or an edge id` at the bucket of the neighbour read */
+__CPROVER_requires(m_edge_bucket[OPP(LST(adjacency_data_ptr).link_id, node_A_id)] == SIZE_MAX || m_edge_bucket[OPP(LST(adjacency_data_ptr).link_id, node_A_id)] < m_edges_n)
+__CPROVER_assigns(adjacency_data_ptr, m_perf_boruvka, __CPROVER_object_whole(m_edge_bucket), m_edge_in_bucket[m_edge_in_bucket_n], m_edge_in_bucket_n)
+/* C15 (minimum weight), from the statement: after parsing a valid edge A-B the edge kept for B is one of {previously kept, parsed}, and NEITHER of
+ * the two is lighter than it */
+__CPROVER_ensures(BK_VALID ==> (m_edge_bucket[BK_B] == BK_E || (BK_OLD != SIZE_MAX && m_edge_bucket[BK_B] == BK_OLD)))
+__CPROVER_ensures(BK_VALID ==> !(W(BK_E) < W(m_edge_bucket[BK_B])))
+__CPROVER_ensures((BK_VALID && BK_OLD != SIZE_MAX) ==> !(W(BK_OLD) < W(m_edge_bucket[BK_B])))
+/* a neighbour seen for the first time is recorded exactly once in m_edge_in_bucket; otherwise the list is untouched */
+__CPROVER_ensures((BK_VALID && BK_OLD == SIZE_MAX) ==> (m_edge_in_bucket_n == __CPROVER_old(m_edge_in_bucket_n) + 1 && m_edge_in_bucket[m_edge_in_bucket_n - 1] == BK_B))
+__CPROVER_ensures(!(BK_VALID && BK_OLD == SIZE_MAX) ==> m_edge_in_bucket_n == __CPROVER_old(m_edge_in_bucket_n))
+/* an invalid edge (self loop, dead neighbour) changes no bucket; the bucket of any other basin is untouched (frame, ghost basin) */
+__CPROVER_ensures((!BK_VALID || GBV != BK_B) ==> m_edge_bucket[GBV] == __CPROVER_old(m_edge_bucket[GBV]))
+/* the scan moves along the next pointers */
+__CPROVER_ensures(adjacency_data_ptr == __CPROVER_old(LST(adjacency_data_ptr).next))
+""")
+G_BUCKET_STEP = Group(
+    name="boruvka.main.bucket.step", units=HELPERS + [bv_bucket_step], extra_c=[MODEL_H, BV_MODEL_H],
+    harness=harness("bv_bucket_step", BK_PTRS, "adjacency_data_ptr = nondet_size_t(); bv_bucket_step(nbasins_, %s, nondet_size_t())" % args(BK_PTRS)),
+    entry="h_bv_bucket_step", enforce="bv_bucket_step", backend="cvc5", timeout=900, min_obligations=10, replay="replay/boruvka.cpp",
+    clause="compute_tree_boruvka main loop, clean-up of a large-degree node, one parsed edge A-B: the edge kept for neighbour B is the previously kept or the "
+           "parsed one and neither of them is lighter (only a LIGHTEST parallel edge survives); a first-seen neighbour is recorded once; other buckets and "
+           "invalid edges (self loops, dead neighbours) change nothing; indices in range under the row invariant instance.  This path needs more than "
+           "m_max_low_degree incident edges and is beyond every bounded group")
+MAIN_GROUPS += [G_BUCKET_STEP]
 
 # ==== REGISTRY ====
 GROUPS = {"C15": SETUP_GROUPS + MAIN_GROUPS + BOUNDED_GROUPS,
